@@ -21,7 +21,7 @@ import errno
 import queue as realqueue
 
 from checks import c09
-from checks.c09 import NAMES, ROOT, ROOT_INO, VFS, Prep, tree_json, tree_from_json
+from checks.c09 import NAMES, ROOT, VFS, Prep, tree_from_json, tree_json
 from wdmc import wd
 
 LEVEL = "model_checking"
@@ -424,8 +424,8 @@ def bfs(ctx, trees, recursive, nmax, pool, max_polls):
     _violations(ctx, total, "H", name)
     ctx.add_enum(name, total.evals, total.nontrivial, samples=[sample], states=states, transitions=transitions,
                  exhaustive=closed,
-                 extra=dict(initial_states=len(trees), states=states, depth_reached=depth, max_polls=max_polls, closed=closed, frontier_truncated=truncated,
-                            operation_sequences=total.opseqs, distinct_signatures=len(total.sigs),
+                 extra=dict(initial_states=len(trees), states=states, depth_reached=depth, max_polls=max_polls,
+                            closed=closed, frontier_truncated=truncated, operation_sequences=total.opseqs, distinct_signatures=len(total.sigs),
                             failing_evaluations=total.nbad))
 
 
